@@ -4,6 +4,7 @@ Running the ES5Grammar derivation machine per theme (DESIGN 3.4) and reading
 the sentences-with-trees it produces.
 """
 import json
+import os
 import sys
 from concurrent.futures import ThreadPoolExecutor
 
@@ -267,3 +268,55 @@ def compositions(themes, rng, tier, names=None, chunk=10, twins=True):
                                         {t.idx: s1,
                                          t.idx + len(a.tokens): s2}))
     return out
+
+
+SUITE_PLUGIN = '''
+import json, os
+texts = []
+def pytest_configure(config):
+    from calmjs.parse.lexers import es5 as lx
+    orig = lx.Lexer.input
+    def input(self, text):
+        if isinstance(text, str):
+            texts.append(text)
+        return orig(self, text)
+    lx.Lexer.input = input
+def pytest_unconfigure(config):
+    with open(os.environ['CORPUS_OUT'], 'w') as f:
+        json.dump(sorted(set(texts)), f)
+'''
+
+
+def suite_corpus(rep=None):
+    """The texts the repository's own test suite feeds to the lexer (DESIGN
+    4.5): the unedited suite is run once against a copy of the scratch build
+    with a recorder on Lexer.input; what it parsed becomes one more source of
+    inputs for the checks that need no derivation (C06, C12, C16, and the
+    re-parse clauses of C01 / C02).  -> sorted list of distinct texts (empty
+    if the suite cannot be run: then the checks simply do without)."""
+    import shutil
+    import subprocess
+    import sys
+    from common import build_scratch, tmp_dir, REPO
+    build_scratch()
+    d = tmp_dir('suite')
+    out = os.path.join(d, 'texts.json')
+    if os.path.exists(out):
+        return json.load(open(out))
+    src = os.path.join(d, 'src')
+    shutil.copytree(os.path.join(REPO, 'src'), src, ignore=shutil.ignore_patterns(
+        '__pycache__', '*.pyc', 'lextab_*', 'yacctab_*', 'parser.out'))
+    with open(os.path.join(d, 'verif_corpus_plugin.py'), 'w') as f:
+        f.write(SUITE_PLUGIN)
+    env = dict(os.environ, CORPUS_OUT=out, PYTHONPATH=src + os.pathsep + d,
+               PYTHONDONTWRITEBYTECODE='1')
+    p = subprocess.run([sys.executable, '-m', 'pytest', '-q', '-x',
+                        '-p', 'no:cacheprovider', '-p', 'verif_corpus_plugin',
+                        'calmjs'], cwd=src, env=env, stdout=subprocess.PIPE,
+                       stderr=subprocess.STDOUT, timeout=900)
+    texts = json.load(open(out)) if os.path.exists(out) else []
+    if rep is not None:
+        rep.notes['suite_corpus'] = {
+            'texts': len(texts),
+            'pytest_tail': p.stdout.decode('utf-8', 'replace')[-120:].strip()}
+    return texts
